@@ -40,7 +40,7 @@ def parseLabel (known : List String) (j : Json) : R (Label String) := do
   | [.str "rxSetEvent"] => return .rxSetEvent
   | [.str "rxRequeue"] => return .rxRequeue
   | [.str "rxCleanPop"] => return .rxCleanPop
-  | [.str "rxCleanup", b, tk] => return .rxCleanup (← b.getBool?) (← (← arr tk).mapM (·.getNat?))
+  | [.str "rxCleanup", r, tk] => return .rxCleanup (← optNat r) (← (← arr tk).mapM (·.getNat?))
   | [.str "closeBegin"] => return .closeBegin
   | [.str "closeTxq"] => return .closeTxq
   | [.str "closeActive"] => return .closeActive
@@ -176,6 +176,7 @@ def handle (j : Json) : R Json := do
     return Json.mkObj [
       ("shutdown_clean", Json.bool (shutdownCleanB re)),
       ("first_parked", jopt jnat (firstParked tbl states 0)),
+      ("first_lost", jopt jnat (firstLost states 0)),
       ("reply_matches_known", Json.bool (replyMatchesKnownB tbl final)),
       ("reply_matches", Json.bool (replyMatchesB tbl final)),
       ("no_double", Json.bool (noDoubleDeliveryB final)),
